@@ -468,7 +468,7 @@ Example ex_flags_wf : Forall flag_wf ex_flags /\
    ["user-defined"; "default"; "false"; "user-defined"; "true"])%string.
 Proof.
   split; [|vm_compute; reflexivity].
-  repeat constructor; unfold flag_wf; simpl; intros; try discriminate; auto.
+  unfold ex_flags. repeat (apply Forall_cons; [unfold flag_wf; simpl; intros; try discriminate; auto|]). apply Forall_nil.
 Qed.
 
 Definition ex_graph : gdesc :=
